@@ -54,11 +54,14 @@ deriving Repr
 structure Side (C : Type) where
   bug : Nat := 0            -- cvise_bug_* directories that exist
   extra : Nat := 0          -- cvise_extra_* directories that exist
-  failed : Nat := 0
-  worked : Nat := 0
-  executed : Nat := 0
-  curPass : Nat := 0        -- key of the pass being run (for the per-pass statistics)
+  failed : Nat → Nat := fun _ => 0      -- per pass key, as `PassStatistic.stats[repr(pass)]`
+  worked : Nat → Nat := fun _ => 0
+  executed : Nat → Nat := fun _ => 0
+  curPass : Nat := 0        -- key of the pass being run
   log : List (Ev C) := []
+
+/-- `f[k] += 1` -/
+def bump (f : Nat → Nat) (k : Nat) : Nat → Nat := fun p => if p = k then f p + 1 else f p
 
 structure St (C : Type) where
   disk : List C
@@ -103,7 +106,7 @@ def check {C σ} [DecidableEq C] (cfg : Cfg) (size : C → Nat) (cur : C) (e : E
       else (.ignore, g, gu)
     else (.accept, g, gu)
   else
-    let g := { g with failed := g.failed + 1, log := g.log ++ [.fail g.curPass] }
+    let g := { g with failed := bump g.failed g.curPass, log := g.log ++ [.fail g.curPass] }
     -- `moved`: the candidate file was moved into a cvise_extra_* directory just before (also_interesting)
     let fall (g : Side C) (moved : Bool := false) : Outcome × Side C × Bool :=
       if !cfg.noGiveUp && e.order > cfg.giveup then
@@ -190,7 +193,7 @@ def roundLoop {C σ} [DecidableEq C] (cfg : Cfg) (size : C → Nat) (pkey : Nat)
     | .inl ((futs', rs, quit), g) =>
       if quit then wfs cfg size cur env futs' g rs
       else
-        let g := { g with executed := g.executed + 1, log := g.log ++ [.sched pkey (t+1)] }
+        let g := { g with executed := bump g.executed g.curPass, log := g.log ++ [.sched pkey (t+1)] }
         let futs'' := futs' ++ [t]
         if more (t+1) then roundLoop cfg size pkey cur env more done fuel (t+1) futs'' g rs
         else wfs cfg size cur env futs'' g rs
@@ -200,11 +203,13 @@ def nthState {C σ} (P : PassI C σ) (cur : C) (s : σ) : Nat → Option σ
   | 0 => some s
   | n+1 => (nthState P cur s n).bind (P.advance cur)
 
+/-- the schedule oracle: round id, iteration, env index ↦ is that future done when the scan looks -/
+abbrev Sched := Nat → Nat → Nat → Bool
+
 structure World (C : Type) where
   size : C → Nat
   test : List C → Exit                      -- the interestingness test: a deterministic function of the joint contents
   fault : Nat → Nat → Option Exit           -- per-invocation fault (round id, order): overrides the test's answer
-  done : Nat → Nat → Nat → Bool             -- round id, iteration, env index
 
 /-- the env of candidate `i` of a round that starts from cursor `s` on `disk` (file `k` being reduced) -/
 def envOf {C σ} [Inhabited σ] (W : World C) (P : PassI C σ) (disk : List C) (k : Nat) (cur : C) (s : σ) (rid : Nat) (i : Nat) : EnvRes C σ :=
@@ -226,8 +231,11 @@ def limitHit (o : Option Nat) (succ : Nat) : Bool :=
 
 abbrev LRes (C : Type) := (St C × Nat) ⊕ (Err × St C)
 
+/-- `process_result`: the winning candidate replaces file `k` -/
+def commitSt {C} (x : St C) (k : Nat) (cand : C) (g : Side C) : St C := { x with disk := x.disk.set k cand, side := g }
+
 /-- all rounds on one file (the `while self.state is not None` loop of `run_pass`) -/
-def fileLoop {C σ} [DecidableEq C] [Inhabited σ] [Inhabited C] (cfg : Cfg) (W : World C) (P : PassI C σ) (k : Nat) (startSize : Nat) :
+def fileLoop {C σ} [DecidableEq C] [Inhabited σ] [Inhabited C] (cfg : Cfg) (W : World C) (dn : Sched) (P : PassI C σ) (k : Nat) (startSize : Nat) :
     Nat → Nat → σ → Nat → St C → LRes C     -- fuel, round id, state, success count
   | 0, rid, _, _, x => .inl (x, rid)
   | fuel+1, rid, s, succ, x =>
@@ -235,14 +243,14 @@ def fileLoop {C σ} [DecidableEq C] [Inhabited σ] [Inhabited C] (cfg : Cfg) (W 
     let cur := x.disk.getD k default
     let env := envOf W P x.disk k cur s rid
     let more := fun t => (nthState P cur s t).isSome
-    match roundLoop cfg W.size P.key cur env more (W.done rid) (cfg.giveup + 1000) 0 [] x.side {} with
+    match roundLoop cfg W.size P.key cur env more (dn rid) (cfg.giveup + 1000) 0 [] x.side {} with
     | .inr (e, g) => .inr (e, { x with side := g })
     | .inl (none, g) => .inl ({ x with side := g }, rid + 1)
     | .inl (some i, g) =>
       let e := env i
       let tested := match e.exit with | some ex => [Ev.tested (x.disk.set k e.cand) ex] | none => []
-      let g := { g with worked := g.worked + 1, log := g.log ++ tested ++ [.commit P.key k e.cand] }
-      let x := { x with disk := x.disk.set k e.cand, side := g }
+      let g := { g with worked := bump g.worked g.curPass, log := g.log ++ tested ++ [.commit P.key k e.cand] }
+      let x := commitSt x k e.cand g
       let succ := succ + 1
       if W.size e.cand ≥ cfg.growth * startSize then .inl ({ x with leftover := !cfg.releaseBeforeBail }, rid + 1)
       else
@@ -250,12 +258,19 @@ def fileLoop {C σ} [DecidableEq C] [Inhabited σ] [Inhabited C] (cfg : Cfg) (W 
         | none => .inl (x, rid + 1)
         | some s' =>
           if limitHit cfg.skipN succ || limitHit P.maxT succ then .inl (x, rid + 1)
-          else fileLoop cfg W P k startSize fuel (rid + 1) s' succ x
+          else fileLoop cfg W dn P k startSize fuel (rid + 1) s' succ x
 
 def totalSize {C} (size : C → Nat) (disk : List C) : Nat := (disk.map size).foldl (· + ·) 0
 
+/-- `new` + all rounds on one file -/
+def newLoop {C σ} [DecidableEq C] [Inhabited σ] [Inhabited C] (cfg : Cfg) (W : World C) (dn : Sched) (P : PassI C σ) (k : Nat) (fuel rid : Nat)
+    (x : St C) (before : C) : LRes C :=
+  match P.new before with
+  | none => .inl (x, rid)
+  | some s => fileLoop cfg W dn P k (W.size before) fuel rid s 0 x
+
 /-- one file of `run_pass`: skip if empty, replay from the cache, else reduce and store -/
-def fileStep {C σ} [DecidableEq C] [Inhabited σ] [Inhabited C] (cfg : Cfg) (W : World C) (P : PassI C σ) (fuel : Nat)
+def fileStep {C σ} [DecidableEq C] [Inhabited σ] [Inhabited C] (cfg : Cfg) (W : World C) (dn : Sched) (P : PassI C σ) (fuel : Nat)
     (acc : LRes C) (k : Nat) : LRes C :=
   match acc with
   | .inr e => .inr e
@@ -268,35 +283,32 @@ def fileStep {C σ} [DecidableEq C] [Inhabited σ] [Inhabited C] (cfg : Cfg) (W 
       .inl ({ x with disk := x.disk.set k after,
                      side := { x.side with log := x.side.log ++ [.replay P.key k after] } }, rid)
     | none =>
-      let r : LRes C := match P.new before with
-        | none => .inl (x, rid)
-        | some s => fileLoop cfg W P k (W.size before) fuel rid s 0 x
-      match r with
+      match newLoop cfg W dn P k fuel rid x before with
       | .inr e => .inr e
       | .inl (y, rid) =>
         if cfg.cacheOn then .inl ({ y with cache := (ckey, y.disk.getD k default) :: y.cache }, rid)
         else .inl (y, rid)
 
 /-- run_pass over the files in the given order (sorted by size by the caller) -/
-def runPass {C σ} [DecidableEq C] [Inhabited σ] [Inhabited C] (cfg : Cfg) (W : World C) (P : PassI C σ) (order : List Nat) (fuel : Nat)
+def runPass {C σ} [DecidableEq C] [Inhabited σ] [Inhabited C] (cfg : Cfg) (W : World C) (dn : Sched) (P : PassI C σ) (order : List Nat) (fuel : Nat)
     (rid : Nat) (x : St C) : LRes C :=
   let x := { x with leftover := false, side := { x.side with curPass := P.key } }
   if totalSize W.size x.disk = 0 then .inr (.zeroSize, x) else
-  order.foldl (fileStep cfg W P fuel) (.inl (x, rid))
+  order.foldl (fileStep cfg W dn P fuel) (.inl (x, rid))
 
 
 /-- `_run_additional_passes` -/
-def runPasses {C σ} [DecidableEq C] [Inhabited σ] [Inhabited C] (cfg : Cfg) (W : World C) (orderOf : List C → List Nat) (fuel : Nat) :
+def runPasses {C σ} [DecidableEq C] [Inhabited σ] [Inhabited C] (cfg : Cfg) (W : World C) (dn : Sched) (orderOf : List C → List Nat) (fuel : Nat) :
     List (PassI C σ) → LRes C → LRes C
   | [], acc => acc
   | P :: ps, acc =>
     match acc with
     | .inr e => .inr e
-    | .inl (x, rid) => runPasses cfg W orderOf fuel ps (runPass cfg W P (orderOf x.disk) fuel rid x)
+    | .inl (x, rid) => runPasses cfg W dn orderOf fuel ps (runPass cfg W dn P (orderOf x.disk) fuel rid x)
 
 /-- `_run_main_passes`: repeat the main passes while a round made the total strictly smaller
     (`stopLt = true` models the comparison read from the source: stop when `new >= old`) -/
-def mainLoop {C σ} [DecidableEq C] [Inhabited σ] [Inhabited C] (cfg : Cfg) (W : World C) (orderOf : List C → List Nat) (fuel : Nat)
+def mainLoop {C σ} [DecidableEq C] [Inhabited σ] [Inhabited C] (cfg : Cfg) (W : World C) (dn : Sched) (orderOf : List C → List Nat) (fuel : Nat)
     (passes : List (PassI C σ)) : Nat → LRes C → LRes C
   | 0, acc => acc
   | rounds+1, acc =>
@@ -305,17 +317,17 @@ def mainLoop {C σ} [DecidableEq C] [Inhabited σ] [Inhabited C] (cfg : Cfg) (W 
     | .inl (x, rid) =>
       let before := totalSize W.size x.disk
       if before = 0 then .inl (x, rid) else     -- stopping threshold 1.0 is met only by an empty input; nothing runs
-      match runPasses cfg W orderOf fuel passes (.inl (x, rid)) with
+      match runPasses cfg W dn orderOf fuel passes (.inl (x, rid)) with
       | .inr e => .inr e
       | .inl (y, rid') =>
         if totalSize W.size y.disk ≥ before then .inl (y, rid')
-        else mainLoop cfg W orderOf fuel passes rounds (.inl (y, rid'))
+        else mainLoop cfg W dn orderOf fuel passes rounds (.inl (y, rid'))
 
 /-- `CVise.reduce` after the sanity check: first, main (to a fixpoint), last -/
-def reduce {C σ} [DecidableEq C] [Inhabited σ] [Inhabited C] (cfg : Cfg) (W : World C) (orderOf : List C → List Nat) (fuel : Nat)
+def reduce {C σ} [DecidableEq C] [Inhabited σ] [Inhabited C] (cfg : Cfg) (W : World C) (dn : Sched) (orderOf : List C → List Nat) (fuel : Nat)
     (first main last : List (PassI C σ)) (x : St C) : LRes C :=
-  let r1 := runPasses cfg W orderOf fuel first (.inl (x, 0))
-  let r2 := mainLoop cfg W orderOf fuel main (totalSize W.size x.disk + 2) r1
-  runPasses cfg W orderOf fuel last r2
+  let r1 := runPasses cfg W dn orderOf fuel first (.inl (x, 0))
+  let r2 := mainLoop cfg W dn orderOf fuel main (totalSize W.size x.disk + 2) r1
+  runPasses cfg W dn orderOf fuel last r2
 
 end Cvise.D
